@@ -13,12 +13,7 @@ fn one<T: FEl>(tr: &mut Trace, rng: &mut Rng, n: usize, class: &str, trailing: &
     let mut shape = vec![n];
     shape.extend_from_slice(trailing);
     let data = gen::data::<T>(rng, &shape, dclass);
-    // a third of the builds use non-standard memory layouts of data and axis (views)
-    let (store, dlay, xlay) = match rng.below(6) {
-        0 => (Store::View, *rng.pick(&[Lay::Rev, Lay::Perm, Lay::Strided, Lay::F]), *rng.pick(&[Lay::C, Lay::Rev, Lay::Strided])),
-        1 => (Store::Owned, *rng.pick(&[Lay::F, Lay::Perm]), Lay::C),
-        _ => (Store::Owned, Lay::C, Lay::C),
-    };
+    let (store, dlay, xlay) = gen::next_layout();
     let dr = real(&data, dlay);
     let xr = real1(&x, xlay);
     let dynamic = rng.below(6) == 0;
